@@ -27,6 +27,13 @@ CHECKS = {
         note="Trusted: RefValue in mc/checks/c09.py written from the property statement. Two deviations are recorded known findings.",
         design="4 C09",
     ),
+    "C10": dict(
+        category="model_checking",
+        technique="explicit-state BFS over histories of public tree operations and evolutionary operators (all random resolutions), invariant checked against from-scratch recomputation",
+        text="Breadth-first search (depth 2 quick / 3 thorough, 516-event alphabet) over a forest of live trees: setters, add/set children, replace, deepcopy, split_end/prefix with and without copying, indexing, slicing, selector searches, value conversion, cache warming, and mutate/crossover/repair under every resolution of their random decisions. In every state every live tree must satisfy size == recount, hash == hash of a freshly built equal tree, child.parent is the listing node, == agrees with structure, and operands of non-mutating operations are unchanged.",
+        note="States are canonicalised on the full structural snapshot plus which hash caches are warm. The slice re-parenting defect was repaired in /repo.",
+        design="4 C10",
+    ),
     "C12": dict(
         category="model_checking",
         technique="explicit-state BFS over request histories on one spec object, differential oracle against a freshly built spec",
